@@ -139,6 +139,30 @@ def same_shape(name):
     code, off, lt, mask, _ = FAMILY[name]
     return sorted(n for n, (c2, o2, lt2, m2, _) in FAMILY.items() if n != name and len(c2) == len(code) and o2 == off and m2 == mask and c2 != code)
 
+def gen_late(rng, tier, index):
+    """A loader that keeps interrupts enabled (IM 2 frame counter) and arrives late at its second block: the first
+    block has (almost) no pause after it and the program idles for one to three frames before it calls the loader
+    again, so with pause=1 the tape waits and the clock is set back to the block's first edge across one or more
+    frame boundaries.  (pause=0 is not compared here: a late loader hearing a different part of the pilot is the
+    documented purpose of that option.)"""
+    scn = gen_custom(rng, tier, index)
+    scn['lbase'] = rng.choice((0x8000, 0x9000, 0xBF00, 0xC000, 0xE000, rng.randrange(0x8000, 0xE000)))
+    b1 = scn['blocks'][0]
+    b1['len'] = min(b1['len'], 40)
+    b1['pause_ms'] = rng.choice((0, 0, 1, 3))
+    b2 = json.loads(json.dumps(b1))
+    b2['seed'] = rng.getrandbits(48)
+    b2['len'] = rng.randrange(1, 40)
+    b2['pause_ms'] = rng.choice((1000, 1500))
+    for b in (b1, b2):
+        b['pilot_len'] = 8063       # the late loader still finds more than a second of pilot when the tape does not wait
+    scn['blocks'] = [b1, b2]
+    scn['r0'] = None
+    scn['late'] = {'delay': rng.choice((3000, 6000, 9000, rng.randrange(2800, 12000))), 'ints': True}
+    scn['size'] = b1['len'] + b2['len'] + 500
+    scn['variants'] = [v for v in scn['variants'] if v['pause'] == 1]
+    return scn
+
 def gen_repatch(rng, tier, index):
     """Two turbo blocks; between them the program copies a second loader (another family of the same shape) over
     the first, so the code around the same IN address changes while the tape session continues."""
@@ -254,16 +278,32 @@ def build(scn, wd):
     if scn.get('r0') is not None:
         stub += bytes((0x3E, scn['r0'], 0xED, 0x4F))          # LD A,r0; LD R,A  (bit 7 of R is program state too)
     ldbytes = base + 0x40 + entry
+    late = scn.get('late')
+    isr = b''
+    if late:
+        # the loader keeps interrupts enabled: its DI becomes a NOP; an IM 2 routine counts frames
+        code = bytearray(code)
+        assert code[entry + 3] == 0xF3
+        code[entry + 3] = 0x00
+        code = bytes(code)
+        isr_at = base + 0x40 + len(code)
+        cnt = isr_at + 13
+        isr = bytes((0xF5, 0xE5, 0x2A)) + _word(cnt) + bytes((0x23, 0x22)) + _word(cnt) + bytes((0xE1, 0xF1, 0xFB, 0xC9)) + bytes(3)    # 14 + 2 counter bytes (+1)
+        # DI; LD A,0xFE; LD I,A; IM 2; LD HL,isr; LD (0xFEFF),HL; EI
+        stub += bytes((0xF3, 0x3E, 0xFE, 0xED, 0x47, 0xED, 0x5E, 0x21)) + _word(isr_at) + bytes((0x22, 0xFF, 0xFE, 0xFB))
     code2 = b''
     if scn.get('repatch'):
         code2, entry2 = loader_bytes(base + 0x40, scn['repatch'], scn['dec_a_jp'])
         if len(code2) != len(code) or entry2 != entry:
             raise tapeload.ToolError('repatch loaders differ in size')
-    dest = (base + 0x40 + len(code) + len(code2) + 0x20) & 0xFFFF
+    dest = (base + 0x40 + len(code) + len(isr) + len(code2) + 0x20) & 0xFFFF
     ranges = []
     blocks = scn['blocks']
     jr_at = []
     for bi, b in enumerate(blocks):
+        if bi == 1 and late:
+            # idle for `delay` iterations of 26 T-states: LD BC,n; DEC BC; LD A,B; OR C; JR NZ,$-3
+            stub += bytes((0x01,)) + _word(late['delay']) + bytes((0x0B, 0x78, 0xB1, 0x20, 0xFB))
         if bi == 1 and code2:
             # LD HL,copy; LD DE,loader; LD BC,len; LDIR  - the second loader replaces the first in place
             stub += bytes((0x21,)) + _word(base + 0x40 + len(code)) + bytes((0x11,)) + _word(base + 0x40) + bytes((0x01,)) + _word(len(code2)) + bytes((0xED, 0xB0))
@@ -284,7 +324,7 @@ def build(scn, wd):
         stub[at + 1] = disp & 0xFF
     if len(stub) > 0x40:
         raise tapeload.ToolError('driver stub does not fit (%d bytes)' % len(stub))
-    image = bytes(stub) + bytes(0x40 - len(stub)) + code + code2
+    image = bytes(stub) + bytes(0x40 - len(stub)) + code + isr + code2
     if dest >= 0x10000 or base + len(image) >= 0x10000:
         raise tapeload.ToolError('generated layout does not fit')
     binf = os.path.join(wd, 'loader.bin')
